@@ -1115,3 +1115,108 @@ func BuildCompactFromPBF(filename string, cores int) (b6.World, error) {
 	}
 	return BuildCompactFromSource(fs, cores)
 }
+
+// ---- a feature source that reuses its values (C36) ----------------------------------------------------
+
+// ReusingSource is an ingest.FeatureSource that follows the pattern of the repo's own OSM source
+// (ingest/osm.go, pbfSource.Read: `points[g]`, `paths[g]`, `areas[g]`, `relations[g]` are filled and emitted
+// again for every element): it owns ONE value per feature kind per goroutine, refills it for each feature and
+// hands a pointer to it to emit. A builder that keeps such a pointer instead of a copy sees it change.
+// The features are split over the goroutines in contiguous chunks or interleaved, and each goroutine emits
+// its share in list order — areas and relations may come before their paths and members.
+type ReusingSource struct {
+	Features    []ingest.Feature
+	Interleaved bool
+}
+
+func refillTags(dst *b6.Tags, src b6.Tags) {
+	*dst = (*dst)[0:0]
+	for _, t := range src {
+		if es, ok := t.Value.AnyExpression.(b6.Expressions); ok { // a fresh path expression per emission, as osm.go makes
+			t.Value = b6.Expression{AnyExpression: append(b6.Expressions(nil), es...)}
+		}
+		*dst = append(*dst, t)
+	}
+}
+
+func (s *ReusingSource) Read(options ingest.ReadOptions, emit ingest.Emit, ctx context.Context) error {
+	g := options.Goroutines
+	if g < 1 {
+		g = 1
+	}
+	points := make([]ingest.GenericFeature, g)
+	paths := make([]ingest.GenericFeature, g)
+	areas := make([]ingest.AreaFeature, g)
+	relations := make([]ingest.RelationFeature, g)
+	errs := make([]error, g)
+	var wg sync.WaitGroup
+	n := len(s.Features)
+	for k := 0; k < g; k++ {
+		wg.Add(1)
+		go func(k int) {
+			defer wg.Done()
+			mine := func(i int) bool {
+				if s.Interleaved {
+					return i%g == k
+				}
+				return i >= k*n/g && i < (k+1)*n/g
+			}
+			for i, f := range s.Features {
+				if !mine(i) || ctx.Err() != nil {
+					continue
+				}
+				var err error
+				switch x := f.(type) {
+				case *ingest.AreaFeature:
+					if options.SkipAreas {
+						continue
+					}
+					areas[k].AreaID = x.AreaID
+					refillTags(&areas[k].Tags, x.Tags)
+					areas[k].AreaMembers = x.AreaMembers.Clone()
+					err = emit(&areas[k], k)
+				case *ingest.RelationFeature:
+					if options.SkipRelations {
+						continue
+					}
+					relations[k].RelationID = x.RelationID
+					refillTags(&relations[k].Tags, x.Tags)
+					relations[k].Members = append(relations[k].Members[0:0], x.Members...)
+					err = emit(&relations[k], k)
+				case *ingest.GenericFeature:
+					v := &points[k]
+					if f.FeatureID().Type == b6.FeatureTypePath {
+						if options.SkipPaths {
+							continue
+						}
+						v = &paths[k]
+					} else if options.SkipPoints {
+						continue
+					}
+					v.ID = x.ID
+					refillTags(&v.Tags, x.Tags)
+					err = emit(v, k)
+				}
+				if err != nil {
+					errs[k] = err
+					return
+				}
+			}
+		}(k)
+	}
+	wg.Wait()
+	for _, err := range errs {
+		if err != nil {
+			return err
+		}
+	}
+	return ctx.Err()
+}
+
+func BuildBasicFromReusing(fs []ingest.Feature, interleaved bool, cores int) (b6.World, error) {
+	return ingest.NewWorldFromSource(&ReusingSource{Features: CloneFeatures(fs), Interleaved: interleaved}, &ingest.BuildOptions{Cores: cores})
+}
+
+func BuildCompactFromReusing(fs []ingest.Feature, interleaved bool, cores int) (b6.World, error) {
+	return BuildCompactFromSource(&ReusingSource{Features: CloneFeatures(fs), Interleaved: interleaved}, cores)
+}
